@@ -82,7 +82,8 @@ def gen_ambiguous_instance(rng, idx, i):
     gname = list(AMBIGUOUS)[i % len(AMBIGUOUS)]
     g, nts = AMBIGUOUS[gname]
     nt = r.choice(nts)
-    tpl = AMB_TEMPLATES[(i // len(AMBIGUOUS)) % len(AMB_TEMPLATES)] if i < 2 * len(AMBIGUOUS) else r.choice(AMB_TEMPLATES)
+    first_pass = i < len(AMBIGUOUS)      # every grammar once with `str.len(n) < 5` and small instantiation limits
+    tpl = AMB_TEMPLATES[1] if first_pass else AMB_TEMPLATES[0] if i < 2 * len(AMBIGUOUS) else r.choice(AMB_TEMPLATES)
     settings = {
         "max_number_free_instantiations": r.choice([2, 2, 3]),
         "max_number_smt_instantiations": r.choice([2, 2, 3, 5]),
@@ -92,9 +93,13 @@ def gen_ambiguous_instance(rng, idx, i):
         "timeout_seconds": r.choice([None, None, 60]),
         "activate_unsat_support": False,
     }
+    if first_pass:
+        nt = nts[0]
+        settings.update({"max_number_free_instantiations": 2, "max_number_smt_instantiations": 2,
+                         "enable_optimized_z3_queries": True, "enforce_unique_trees_in_queue": True})
     return {"idx": idx, "sub_seed": sub, "gname": gname, "grammar": g, "formula": tpl(nt, r), "ops": ["ambiguous"],
             "kind": "ambiguous", "settings": settings, "clock": r.choice(["frozen", "slow"]),
-            "ncalls": r.choice([10, 12, 12]), "real_clock": False, "focus": None, "budget": 4.0}
+            "ncalls": 12, "real_clock": False, "focus": None, "budget": 15.0}
 
 
 def nonterminals(g):
@@ -507,15 +512,15 @@ def run_instance(inst):
                     tr.nested_steps += self.step_cnt - before
                 tr.depth -= 1
 
-    budget = inst.get("budget", 2.0)
+    budget = inst.get("budget", 2.5)     # seconds of CPU time of this process (robust to machine load)
     FIRED[0] = False
-    t_end = real_time.time() + budget
-    signal.signal(signal.SIGALRM, _alarm)
+    t_end = real_time.process_time() + budget
+    signal.signal(signal.SIGPROF, _alarm)
     old_time, old_heapq = S.time, S.heapq
     if not inst["real_clock"]:
         S.time, S.heapq = FakeTime(tr), FakeHeapq(tr)
     try:
-        signal.setitimer(signal.ITIMER_REAL, max(0.05, t_end - real_time.time()), 0.5)
+        signal.setitimer(signal.ITIMER_PROF, max(0.05, t_end - real_time.process_time()), 0.5)
         try:
             cls = ISLaSolver if inst["real_clock"] else Traced
             solver = cls(inst["grammar"], inst["formula"],
@@ -528,31 +533,31 @@ def run_instance(inst):
                 rec["ctor"] = "budget"; return rec
             rec["ctor"] = f"{type(e).__name__}: {str(e)[:160]}"; return rec
         finally:
-            signal.setitimer(signal.ITIMER_REAL, 0)
+            signal.setitimer(signal.ITIMER_PROF, 0)
         tr.solver = solver
         rec["init_queue"] = tr.snap()[0]
         for k in range(inst["ncalls"]):
-            left = t_end - real_time.time()
+            left = t_end - real_time.process_time()
             if left <= 0.05:
                 rec["aborted"] = True; rec["abort_info"] = ("no time left", k); break
             tr.events = []
             out = None
             if inst["clock"] == "percall" and k > 0:
                 tr.now += r.choice([0, 1, 1, 2])
-            signal.setitimer(signal.ITIMER_REAL, left, 0.5)
+            signal.setitimer(signal.ITIMER_PROF, left, 0.5)
             try:
                 t = solver.solve()
-                signal.setitimer(signal.ITIMER_REAL, 0)
+                signal.setitimer(signal.ITIMER_PROF, 0)
                 if FIRED[0]:  # the alarm was swallowed somewhere below: the result is not trustworthy
                     rec["aborted"] = True; break
                 out = {"kind": "tree", "tid": tr.tree_id(t), "str": str(t)[:60]}
             except Budget:
-                signal.setitimer(signal.ITIMER_REAL, 0)
-                rec["aborted"] = True; rec["abort_info"] = ("budget", round(real_time.time() - t_end + budget, 2)); break
+                signal.setitimer(signal.ITIMER_PROF, 0)
+                rec["aborted"] = True; rec["abort_info"] = ("budget", round(real_time.process_time() - t_end + budget, 2)); break
             except BaseException as e:
-                signal.setitimer(signal.ITIMER_REAL, 0)
+                signal.setitimer(signal.ITIMER_PROF, 0)
                 if FIRED[0]:  # the alarm went off inside a C callback / __del__ and was converted
-                    rec["aborted"] = True; rec["abort_info"] = ("fired-exc", type(e).__name__, round(real_time.time() - t_end + budget, 2)); break
+                    rec["aborted"] = True; rec["abort_info"] = ("fired-exc", type(e).__name__, round(real_time.process_time() - t_end + budget, 2)); break
                 import traceback
                 tb = traceback.extract_tb(e.__traceback__)
                 out = {"kind": "raise", "exn": exn_class(e), "type": type(e).__name__, "msg": str(e)[:200],
@@ -562,12 +567,19 @@ def run_instance(inst):
             rec["calls"].append({"out": out, "events": ev, "queue": q, "sols": s, "steps": solver.step_cnt - tr.nested_steps,
                                  "start": solver.start_time, "timeout": solver.timeout_seconds})
     finally:
-        signal.setitimer(signal.ITIMER_REAL, 0)
+        signal.setitimer(signal.ITIMER_PROF, 0)
         S.time, S.heapq = old_time, old_heapq
     return rec
 
 
 def _worker(inst):
+    w0, c0 = real_time.time(), real_time.process_time()
+    rec = _worker1(inst)
+    rec["wall"], rec["cpu"] = round(real_time.time() - w0, 2), round(real_time.process_time() - c0, 2)
+    return rec
+
+
+def _worker1(inst):
     try:
         return run_instance(inst)
     except Budget:
@@ -577,14 +589,88 @@ def _worker(inst):
         return {"idx": inst["idx"], "calls": [], "ctor": "harness-error", "error": traceback.format_exc()[-1500:]}
 
 
+def _worker_loop(conn):
+    """long-lived worker: receives instances, sends records; never returns"""
+    try:
+        while True:
+            try:
+                inst = conn.recv()
+            except (EOFError, OSError):
+                break
+            if inst is None:
+                break
+            conn.send(_worker(inst))
+    finally:
+        os._exit(0)      # no interpreter teardown (Z3 finalizers can block)
+
+
+def _inconclusive(inst, why):
+    return {"idx": inst["idx"], "calls": [], "ctor": "inconclusive-" + why, "aborted": True, "abort_info": why}
+
+
 def run_pool(insts, workers):
-    """worker processes forked before isla/Z3 are used (forking a process that already used Z3 deadlocks);
-    tasks are handed out in list order, so the first `workers` instances run in fresh processes"""
+    """Own process pool (a worker that dies or hangs makes ITS instance inconclusive and is replaced; it never
+    breaks the run).  Workers are forked from this process, which never imports isla/Z3 itself (forking a
+    process that already used Z3 deadlocks).  Budgets inside the workers are CPU time (robust to machine load);
+    the wall-clock limit here only catches workers that hang without consuming CPU or are stuck in C code.
+    Tasks are handed out in list order, so the first `workers` instances run in fresh processes."""
+    from multiprocessing.connection import wait
     ctx = mp.get_context("fork")
-    out = {}
-    with cf.ProcessPoolExecutor(max_workers=workers, mp_context=ctx) as ex:
-        for rec in ex.map(_worker, insts, chunksize=1):
-            out[rec["idx"]] = rec
+
+    def spawn():
+        pc, cc = ctx.Pipe()
+        p = ctx.Process(target=_worker_loop, args=(cc,), daemon=True)
+        p.start()
+        cc.close()
+        return (p, pc)
+
+    pending, out = list(insts), {}
+    idle = [spawn() for _ in range(min(workers, max(1, len(insts))))]
+    running = {}      # conn -> (proc, inst, t0)
+
+    def retire(conn, proc):
+        try:
+            conn.close()
+        except OSError:
+            pass
+        if proc.is_alive():
+            proc.kill()
+        proc.join(2.0)
+
+    while pending or running:
+        while pending and idle:
+            p, c = idle.pop()
+            inst = pending.pop(0)
+            try:
+                c.send(inst)
+                running[c] = (p, inst, real_time.time())
+            except (OSError, ValueError):
+                retire(c, p)
+                out[inst["idx"]] = _inconclusive(inst, "worker-died")
+                idle.append(spawn())
+        for c in wait(list(running), timeout=0.5):
+            p, inst, t0 = running.pop(c)
+            try:
+                out[inst["idx"]] = c.recv()
+                idle.append((p, c))
+            except (EOFError, OSError):
+                retire(c, p)
+                out[inst["idx"]] = _inconclusive(inst, "worker-died")
+                idle.append(spawn())
+        now = real_time.time()
+        for c, (p, inst, t0) in list(running.items()):
+            if now - t0 > min(200.0, 12.0 * inst.get("budget", 2.5) + 40.0):
+                del running[c]
+                retire(c, p)
+                out[inst["idx"]] = _inconclusive(inst, "worker-hung")
+                idle.append(spawn())
+    for p, c in idle:
+        try:
+            c.send(None)
+        except (OSError, ValueError):
+            pass
+        p.join(0.5)
+        retire(c, p)
     return out
 
 
@@ -713,6 +799,7 @@ CLASSES = [
     ("insert-assert", "AssertionError", r"", "add_to_result"),
     ("sempred-assert", "AssertionError", r"", "eliminate_all_ready_semantic_predicate_formulas"),
     ("seq-at-index", "IndexError", r"string index out of range", "evaluate_z3_seq_at"),
+    ("ground-unknown-assert", "AssertionError", r"", "file+fn:three_valued_truth.py:to_bool"),
     ("zero-div", "ZeroDivisionError", r"", None),
 ]
 
@@ -724,7 +811,10 @@ def crash_class(cr):
     if cr.get("inner"):
         return None
     for key, typ, rx, fn in CLASSES:
-        if fn is not None and fn.startswith("file:"):
+        if fn is not None and fn.startswith("file+fn:"):
+            f_, n_ = fn[8:].split(":")
+            site = any(w.split(":")[0] == f_ and w.endswith(":" + n_) for w in cr["where"])
+        elif fn is not None and fn.startswith("file:"):
             site = any(w.split(":")[0] in fn[5:].split("|") for w in cr["where"])
         else:
             site = fn is None or any(w.endswith(":" + fn) for w in cr["where"])
@@ -823,8 +913,15 @@ def run(run):
         wit.append(wi)
     workers = int(os.environ.get("VERIF_C02_WORKERS", "12"))
     t0 = real_time.time()
-    recs = run_pool(wit + insts, workers)   # witnesses first: fresh worker processes
+    # witnesses first (fresh worker processes), then the long ambiguous histories (they overlap with the rest)
+    order = wit + [i for i in insts if i["kind"] == "ambiguous"] + [i for i in insts if i["kind"] != "ambiguous"]
+    recs = run_pool(order, workers)
     run.cov["impl_seconds"] = round(real_time.time() - t0, 1)
+    slow = sorted(recs.values(), key=lambda r: -r.get("wall", 0))[:6]
+    by_idx = {i["idx"]: i for i in wit + insts}
+    run.cov["slowest_instances"] = [{"wall": r.get("wall"), "cpu": r.get("cpu"), "ctor": r["ctor"][:40], "calls": len(r["calls"]),
+                                     "kind": by_idx[r["idx"]]["kind"], "formula": by_idx[r["idx"]]["formula"][:80],
+                                     "abort": str(r.get("abort_info"))} for r in slow]
 
     by_key = {e["key"]: e for e in known}          # OPEN classes only: anything else is reported
     all_by_key = {e["key"]: e for e in known + fixed}
